@@ -17,7 +17,8 @@ build=$(cargo build --offline --lib 2>&1 | grep -cE "^error")
 rm -rf tests
 suite=$(cargo test --workspace --offline --no-fail-fast 2>&1 | grep -E "^test result" | sed 's/; 0 ignored.*//' | tr '\n' ';')
 mkdir -p tests && cp "$DEMO" tests/demo_seeded.rs
-mut_demo=$(cargo test --offline --test demo_seeded 2>&1 | grep -E "^test result" | head -1)
+mut_demo=$(cargo test --offline --test demo_seeded 2>&1 | grep -E "^test result|signal: |process didn't exit successfully" | head -1)
+[ -z "$mut_demo" ] && mut_demo="FAILED (no test result line)"
 git checkout -q -- . ; rm -rf tests example.qwt256
 echo "  clean demo : $clean_demo"
 echo "  build errs : $build"
@@ -28,5 +29,5 @@ echo "$clean_demo" | grep -q "ok. 1 passed" || ok=0
 [ "$build" = "0" ] || ok=0
 echo "$suite" | grep -q "FAILED\|failed; [1-9]" && ok=0
 echo "$suite" | grep -q "64 passed" || ok=0
-echo "$mut_demo" | grep -q "FAILED" || ok=0
+echo "$mut_demo" | grep -q "FAILED\|signal: \|didn't exit successfully" || ok=0
 [ $ok = 1 ] && res confirmed || res NOT-CONFIRMED
